@@ -2,7 +2,6 @@ package c09
 
 import (
 	"bytes"
-	"crypto/cipher"
 	"crypto/sha256"
 	"encoding/binary"
 	"fmt"
@@ -38,13 +37,12 @@ type content struct {
 
 func (c *content) name() string { return c.Class + "/" + c.Variant }
 
-// prober measures contents with the real store: the compressed stream ("frame") of a content is
-// whatever onDiskStore.Set wrote, decrypted again with store.NewCipher. Nothing here re-implements
-// the compression.
+// prober measures contents with the real store: the length of the compressed stream ("frame") of a
+// content follows from the size of the file onDiskStore.Set wrote. Nothing here re-implements the
+// compression or the encryption.
 type prober struct {
 	dir string
 	st  store.Store
-	gcm cipher.AEAD
 	id  imap.InternalMessageID
 }
 
@@ -59,45 +57,17 @@ func newProber() (*prober, error) {
 	if err != nil {
 		return nil, err
 	}
-	gcm, err := store.NewCipher([]byte("probe"))
-	if err != nil {
-		return nil, err
-	}
-	return &prober{dir: dir, st: st, gcm: gcm, id: imap.NewInternalMessageID()}, nil
+	return &prober{dir: dir, st: st, id: imap.NewInternalMessageID()}, nil
 }
 
 func (p *prober) close() { os.RemoveAll(p.dir) }
 
-// frame returns the compressed stream the store produces for b.
-func frame(b []byte) []byte {
-	p := probe
-	if err := p.st.Set(p.id, bytes.NewReader(b)); err != nil {
-		panic(fmt.Sprintf("probe store: Set: %v", err))
-	}
-	raw, err := os.ReadFile(filepath.Join(p.dir, p.id.String()))
-	if err != nil {
-		panic(fmt.Sprintf("probe store: %v", err))
-	}
-	l, blocks, ok := fileBlocks(len(raw))
-	if !ok || !bytes.HasPrefix(raw, []byte("GLUON-CACHE")) {
-		panic("probe store: unexpected file layout")
-	}
-	nonce := raw[hdrLen : hdrLen+nonceLen]
-	out := make([]byte, 0, l)
-	for i := 1; i <= blocks; i++ {
-		s, e := blockSpan(l, i)
-		plain, err := p.gcm.Open(nil, nonce, raw[s:e], nil)
-		if err != nil {
-			panic(fmt.Sprintf("probe store: block %d does not open: %v (file layout changed?)", i, err))
-		}
-		out = append(out, plain...)
-	}
-	return out
-}
-
-// frameLen is len(frame(b)) from the file size alone.
+// frameLen is the length of the compressed stream ("frame") the store produces for b, derived from
+// the size of the file it wrote.
 func frameLen(b []byte) int {
 	p := probe
+	// always a new file: the measurement must not depend on how the store overwrites
+	_ = os.Remove(filepath.Join(p.dir, p.id.String()))
 	if err := p.st.Set(p.id, bytes.NewReader(b)); err != nil {
 		panic(fmt.Sprintf("probe store: Set: %v", err))
 	}
@@ -297,59 +267,41 @@ func alignedAtB(variant string, gen unitGen, seed int64) ([]byte, error) {
 		return nil, fmt.Errorf("no unit with cost %d found", need)
 	}
 	data.Write(u)
+	// whole units so far: their frame is 7 + sum(cost) + empty block + end mark = blockB + 8 exactly
+	// when the last data block ends at blockB
+	if got := frameLen(data.Bytes()); got != blockB+8 {
+		return nil, fmt.Errorf("aligned content: frame of the first units has %d bytes, want %d", got, blockB+8)
+	}
 	data.Write(randBytes(r, lz4Unit))
-	f := frame(data.Bytes())
-	hdrs, _, ok := frameBlocks(f)
-	if !ok || len(f) <= blockB || len(f) > 2*blockB {
-		return nil, fmt.Errorf("aligned content: frame of %d bytes", len(f))
+	if l := frameLen(data.Bytes()); l <= blockB || l > 2*blockB {
+		return nil, fmt.Errorf("aligned content: frame of %d bytes", l)
 	}
-	for _, h := range hdrs {
-		if h == blockB {
-			return data.Bytes(), nil
-		}
-	}
-	return nil, fmt.Errorf("aligned content: no data block starts at %d", blockB)
+	return data.Bytes(), nil
 }
 
-// frameBlocks parses an LZ4 frame made by frame(): offsets of every data block header.
-func frameBlocks(f []byte) (hdrOff []int, raw []bool, ok bool) {
-	pos := frameHdr
-	for pos+4 <= len(f) {
-		x := binary.LittleEndian.Uint32(f[pos:])
-		if x == 0 {
-			return hdrOff, raw, pos+4 == len(f)
-		}
-		hdrOff = append(hdrOff, pos)
-		raw = append(raw, x&rawMarker != 0)
-		pos += 4 + int(x&^rawMarker)
-	}
-	return hdrOff, raw, false
-}
-
-// swapCrafted builds an incompressible content (every LZ4 data block stored raw) in which bytes that
-// look like data block headers are planted so that the frame stays well formed when the 2nd and 3rd
-// block of blockB bytes of the frame change places. The store seals every block with the same nonce
-// and no position, so nothing but the decompressor can notice the exchange.
+// swapCrafted builds an incompressible content (every LZ4 data block stored raw: 4-byte header
+// 0x80010000 + 64 KiB) in which bytes that look like such headers are planted so that the frame stays
+// well formed when the 2nd and 3rd block of blockB bytes of the frame change places. The store seals
+// every block with the same nonce and no position, so nothing but the decompressor can notice the
+// exchange. Whether the store really stores these units raw is checked through the frame length.
 func swapCrafted(seed int64, units int) ([]byte, error) {
 	r := rand.New(rand.NewSource(seed ^ 0x5a9))
-	data := randBytes(r, units*lz4Unit+1000)
-	f := frame(data)
-	_, raw, ok := frameBlocks(f)
-	if !ok {
-		return nil, fmt.Errorf("cannot parse own frame")
+	const tailLen = 1000
+	data := randBytes(r, units*lz4Unit+tailLen)
+	rawLen := frameHdr + units*(lz4Unit+4) + 4 + tailLen + frameEnd
+	if got := frameLen(data); got != rawLen {
+		return nil, fmt.Errorf("random units are not stored raw (frame %d, want %d)", got, rawLen)
 	}
-	for _, x := range raw {
-		if !x {
-			return nil, fmt.Errorf("a random unit was compressed")
-		}
-	}
-	if len(f) < 3*blockB {
+	if rawLen < 3*blockB {
 		return nil, fmt.Errorf("frame too short")
 	}
-	// real header positions must stay untouched
-	isHdr := func(off int) bool {
-		rel := off - frameHdr
-		return rel >= 0 && rel%(lz4Unit+4) < 4
+	// position in the frame -> offset in data, or -1 for the frame header and block headers
+	dataOff := func(p int) int {
+		rel := p - frameHdr
+		if rel < 0 || rel%(lz4Unit+4) < 4 {
+			return -1
+		}
+		return rel/(lz4Unit+4)*lz4Unit + rel%(lz4Unit+4) - 4
 	}
 	toOrig := func(p int) int { // position in the exchanged frame -> position in the original frame
 		switch {
@@ -360,42 +312,30 @@ func swapCrafted(seed int64, units int) ([]byte, error) {
 		}
 		return p
 	}
-	// walk the exchanged frame the way the decompressor will
-	pos := frameHdr
 	fake := make([]byte, 4)
 	binary.LittleEndian.PutUint32(fake, rawMarker|lz4Unit)
-	for pos+4 <= 3*blockB {
-		need := false
+	// walk the exchanged frame the way the decompressor will: a header every 4 + 64 KiB bytes
+	pos := frameHdr
+	for ; pos+4 <= 3*blockB; pos += 4 + lz4Unit {
 		for i := 0; i < 4; i++ {
-			if toOrig(pos+i) != pos+i {
-				need = true
+			o := toOrig(pos + i)
+			if o == pos+i {
+				continue // outside the exchanged blocks: the real header is there
 			}
-		}
-		if need {
-			for i := 0; i < 4; i++ {
-				o := toOrig(pos + i)
-				if isHdr(o) {
-					return nil, fmt.Errorf("planted header would overlap a real one")
-				}
-				f[o] = fake[i]
+			d := dataOff(o)
+			if d < 0 {
+				return nil, fmt.Errorf("planted header would overlap a real one")
 			}
+			data[d] = fake[i]
 		}
-		pos += 4 + lz4Unit
 	}
-	// read the content back out of the modified frame
-	hdrOff, _, ok := frameBlocks(f)
-	if !ok {
-		return nil, fmt.Errorf("modified frame does not parse")
+	if dataOff(pos) != -1 || dataOff(pos+3) != -1 {
+		return nil, fmt.Errorf("the walk does not meet a real header behind the exchanged blocks")
 	}
-	var out []byte
-	for _, h := range hdrOff {
-		n := int(binary.LittleEndian.Uint32(f[h:]) &^ rawMarker)
-		out = append(out, f[h+4:h+4+n]...)
+	if got := frameLen(data); got != rawLen {
+		return nil, fmt.Errorf("crafted units are not stored raw (frame %d, want %d)", got, rawLen)
 	}
-	if !bytes.Equal(frame(out), f) {
-		return nil, fmt.Errorf("crafted content does not compress to the crafted frame")
-	}
-	return out, nil
+	return data, nil
 }
 
 // classTarget: frame length of the classes that are defined by it (0 = defined otherwise).
